@@ -435,7 +435,8 @@ def run(P, R, tier):
     from ..report import Remap
     from . import c09
     # word 6 non-zero is an addressing clause (C09); losing words 0-4 or 5 loses address bits
-    c09.dotted_quad_guard(P, _NoWord6(Remap(R, {'C09.GRD.2': 'C12.GRD.3'})))
+    # (the word-6 clause too: `::1` printed as 0.0.0.1 reads back as ::ffff:0.0.0.1, another address)
+    c09.dotted_quad_guard(P, Remap(R, {'C09.GRD.2': 'C12.GRD.3'}))
     f, out, posv = printer(P)
     bounded(P, R, f)
     head, lv, N, body = path_weight(P, R, f, out, posv)
@@ -462,6 +463,22 @@ def parser_rules(P, R):
     R.floor('C12.COPY.1', 1)
     expansion_total(P, R, pf)
     mapped_form(P, R, pf)
+    syntax_only(P, R, pf)
+
+
+def syntax_only(P, R, pf, rule='C12.GRD.4'):
+    """The parser accepts every text the printer produces: a text is refused for its syntax, never for the value it
+    denotes - no failing return of the parser is control-dependent on the address words it has just stored (the
+    all-zero and all-ones addresses are printable, hence parsable)."""
+    addrp = pf.params[0]
+    n = 0
+    for s in pf.sites():
+        if s.ev['k'] != 'ret' or const_of(s.ev.get('val')) != 0:
+            continue
+        n += 1
+        byval = [g for g in pf.guards(s.bid) if any(x.get('k') == 'mem' and x.get('field', '').startswith('in6') and root_var(x) is not None and root_var(x)['name'] == addrp for x in walk(g[0]))]
+        R.ob(rule, not byval, s, 'this refusal does not depend on the value parsed%s' % ((' (guarded by %s %s %s)' % (sx(byval[0][0]), byval[0][1], sx(byval[0][2]))) if byval else ''), key='syntax-only')
+    R.floor(rule, 5, 'failing returns of the parser')
 
 
 def expansion_total(P, R, pf, rule='C12.MPT.2'):
